@@ -121,13 +121,25 @@ def r1b_setup(repo: Repo, rep):
         if pre:
             rep.check(R, gtypes == ["StaticSampler"], fi.site(), fi.fq, "pre-evaluation only under isinstance(sampler, StaticSampler)", f"guard types {gtypes}", f"pre-evaluation for {gtypes}")
             calls = {def_id(c) for e in pre for c in ast.walk(e.value) if isinstance(c, ast.Call) and dump(c) == f"{smp}.sample_points()"}
-        wraps = [e for e in p.events if e.kind == "store" and isinstance(e.value, ast.Call) and ends(attr_chain(e.value.func), "UserFunction")]
-        rep.check(R, bool(wraps) or isinstance(r, (ast.DictComp, ast.Call)), fi.site(), fi.fq, "every entry is wrapped in a UserFunction under its own key", f"{len(wraps)} wrapping store(s)", "wrap")
-        for e in wraps:
-            key = dump(e.raw.slice) if e.raw is not None else ""
-            inner = e.value.args[0] if e.value.args else None
-            ok = inner is not None and (f"[{key}]" in dump(inner))
-            rep.check(R, ok, fi.site(e.node), fi.fq, "entry `k` is built from entry `k`", dump(e.node)[:100], dump(e.node)[:100])
+        # the returned mapping: a literal built in this call whose keyed entries are UserFunction(<something derived from the same key>)
+        entries = []
+
+        def collect(d):
+            for k, v in zip(d.keys, d.values):
+                if k is None and isinstance(v, ast.Dict):
+                    collect(v)
+                elif k is not None:
+                    entries.append((k, v))
+        if isinstance(r, ast.Dict):
+            collect(r)
+        wrapped = [(k, v) for k, v in entries if isinstance(v, ast.Call) and ends(attr_chain(v.func), "UserFunction")]
+        rep.check(R, bool(wrapped) and len(wrapped) == len(entries), fi.site(), fi.fq, "every entry is wrapped in a UserFunction under its own key",
+                  f"{len(wrapped)} of {len(entries)} keyed entries wrapped; returns {dump(r)[:80]}", "wrap")
+        for k, v in wrapped:
+            key = dump(k)
+            inner = v.args[0] if v.args else None
+            ok = inner is not None and any(isinstance(n, ast.Subscript) and dump(n.slice) == key for n in ast.walk(inner))
+            rep.check(R, ok, fi.site(), fi.fq, "entry `k` is built from entry `k`", f"{key}: {dump(v)[:100]}", f"{key}: {dump(v)[:100]}")
 
 
 def r3_periodic(repo: Repo, rep):
